@@ -2,6 +2,9 @@
    Property theorems only (helpers: Proofs/Pratt.lean, Proofs/Unescape.lean). -/
 import JrsVerif.Proofs.Pratt
 import JrsVerif.Proofs.Unescape
+import JrsVerif.Proofs.PrattLit
+import JrsVerif.Model.PrattTrivia
+import JrsVerif.Proofs.PrattSuffix
 
 namespace JrsVerif.C06
 open JrsVerif.Generated JrsVerif.Pratt
@@ -172,5 +175,116 @@ example : JrsVerif.Spec.decode [97, 92, 120, 52, 49, 92, 117, 68, 56, 51, 68, 92
 example : JrsVerif.Spec.decode [92, 117, 68, 67, 48, 48] = none := by
   simp [JrsVerif.Spec.decode, JrsVerif.Spec.escape, JrsVerif.Spec.hexNum, JrsVerif.Unescape.hexVal,
     JrsVerif.Unescape.lookup, JrsVerif.Spec.simpleEscapes, JrsVerif.Unescape.push]
+
+/-! ### number literals -/
+open JrsVerif.Lit JrsVerif.Spec in
+/-- C06.5a  For EVERY well-formed number literal of the grammar (digit groups separated by single
+    `_`, JSON's rule for the integer part, optional fraction, optional exponent with optional sign)
+    followed by any text that does not continue it, the four number regexes of the lexer under
+    "longest match wins" yield exactly one FLOAT lexeme covering the literal. -/
+theorem number_lex_spec (n : NumLit) (hn : n.WF) (rest : List Nat) (hr : NumStop rest) :
+    lexNum (n.render ++ rest) = some (.float, n.render.length) := lexNum_render n hn rest hr
+
+open JrsVerif.Lit JrsVerif.Spec in
+/-- C06.5b  `parse_number` (`replace('_', "")` + the grammar of `f64::from_str`) never reports
+    "invalid number literal" on such a lexeme and yields exactly the value the grammar assigns:
+    all integer and fraction digits as the mantissa, exponent minus the number of fraction digits. -/
+theorem number_decode_spec (n : NumLit) (hn : n.WF) :
+    irNumber n.render = some (.dec false n.mantissa n.exponent) := irNumber_render n hn
+
+open JrsVerif.Lit JrsVerif.Spec in
+/-- the IR parser on a text that is exactly one number literal -/
+theorem number_whole_spec (n : NumLit) (hn : n.WF) :
+    irWhole n.render = some (.dec false n.mantissa n.exponent) := irWhole_render n hn
+
+open JrsVerif.Lit in
+/-- C06.5c  For EVERY text: the PEG rule `number` (after the two repairs: `int_str`, junk look-aheads)
+    matches exactly the prefix the lexer takes as a FLOAT lexeme and fails exactly where the lexer
+    yields an ERROR_FLOAT_JUNK_* lexeme or no number — the two evaluator parsers accept the same
+    number tokens (`01`, `1.a`, `1else`, `1__0`, `1_`, `1e+` included). -/
+theorem number_peg_lexer_same (s : List Nat) : pegNumLen s = floatOnly (lexNum s) := peg_lexer_same s
+
+open JrsVerif.Lit in
+/-- … and decode them with the same function -/
+theorem number_peg_value_same (s r : List Nat) (v : F64Lit) (h : pegNumber s = some (v, r)) :
+    irNumber (s.take (s.length - r.length)) = some v := pegNumber_value s r v h
+
+/-- non-vacuity: `1_000.000_1e-1_0` is a well-formed literal; its value is 10000001 · 10^(-14) and
+    the IR parser reads it as exactly that -/
+def numEx : JrsVerif.Spec.NumLit :=
+  ⟨⟨[49], [[48, 48, 48]]⟩, some ⟨[48, 48, 48], [[49]]⟩, some (101, some 45, ⟨[49], [[48]]⟩)⟩
+open JrsVerif.Lit JrsVerif.Spec in
+example : numEx.WF ∧ numEx.render = "1_000.000_1e-1_0".toList.map Char.toNat ∧
+    irWhole numEx.render = some (.dec false 10000001 (-14)) := by
+  have hwf : numEx.WF := by
+    refine ⟨?_, ?_, ?_, ?_⟩
+    · simp [numEx, Groups.WF, allDigits, isDigit]
+    · right; exact ⟨49, [], rfl, by decide⟩
+    · intro f hf; simp [numEx] at hf; subst hf; simp [Groups.WF, allDigits, isDigit]
+    · intro l s g h; simp [numEx] at h; obtain ⟨h1, h2, h3⟩ := h; subst h1; subst h2; subst h3
+      simp [Groups.WF, allDigits, isDigit]
+  refine ⟨hwf, by decide, ?_⟩
+  have := number_whole_spec numEx hwf
+  have hm : numEx.mantissa = 10000001 := by decide
+  have he : numEx.exponent = -14 := by decide
+  rw [hm, he] at this
+  exact this
+
+/-! ### verbatim strings -/
+open JrsVerif.Lit JrsVerif.Spec in
+/-- C06.6a  For EVERY content and either quote: the lexer takes `@q`, the content with every `q`
+    doubled, `q` as one terminated verbatim lexeme (when no further `q` follows), and
+    `parse_string_content` (`&text[2..len-1]`, `replace("qq", "q")`) returns exactly the content. -/
+theorem verbatim_decode_spec (q : Nat) (c rest : List Nat) (hr : ∀ x, rest.head? = some x → x ≠ q) :
+    irVerbatim q (verbRender q c ++ rest) = some (c, rest) := irVerbatim_render q c rest hr
+
+open JrsVerif.Lit in
+/-- C06.6b  For EVERY text the PEG alternative for verbatim strings and the lexer + decoder of the
+    IR parser agree: same accept/reject (unterminated included), same content, same rest. -/
+theorem verbatim_peg_ir_same (q : Nat) (s : List Nat) : pegVerbatim q s = irVerbatim q s :=
+  peg_ir_verbatim_all q s
+
+example : JrsVerif.Lit.irVerbatim 34 (JrsVerif.Spec.verbRender 34 [97, 34, 98] ++ [32, 43]) = some ([97, 34, 98], [32, 43]) :=
+  verbatim_decode_spec 34 [97, 34, 98] [32, 43] (by intro x hx; simp at hx; subst hx; decide)
+
+/-! ### trivia -/
+open JrsVerif.Trivia in
+/-- C06.4  The IR parser is a function of the stripped lexeme vector only (`Parser::new`). -/
+theorem trivia_irrelevant {α : Type} (f : List Lexeme → α) (ls ls' : List Lexeme)
+    (h : strip ls = strip ls') : irParse f ls = irParse f ls' := by
+  unfold irParse; rw [h]
+
+open JrsVerif.Trivia in
+/-- inserting lexemes of the EXTRACTED trivia kinds anywhere does not change the stripped vector … -/
+theorem strip_ext (a b : List Lexeme) (h : Ext a b) : strip b = strip a := by
+  induction h with
+  | nil => rfl
+  | keep l _ ih => simp only [strip, List.filter_cons] at ih ⊢; split <;> simp [ih]
+  | ins t ht _ ih => simp only [strip, List.filter_cons, ht] at ih ⊢; simpa using ih
+
+open JrsVerif.Trivia in
+/-- … hence not the parse, for any parser over the vector and in particular the Pratt loop -/
+theorem trivia_insertion_irrelevant (T : Table) (tok : Lexeme → Tok) (a b : List Lexeme) (h : Ext a b) :
+    parseLexemes T tok b = parseLexemes T tok a :=
+  trivia_irrelevant _ b a (strip_ext a b h)
+
+open JrsVerif.Trivia in
+example : Ext [⟨"IDENT", "a"⟩, ⟨"PLUS", "+"⟩] [⟨"WHITESPACE", " "⟩, ⟨"IDENT", "a"⟩, ⟨"MULTI_LINE_COMMENT", "/**/"⟩, ⟨"PLUS", "+"⟩] :=
+  .ins _ (by decide) (.keep _ (.ins _ (by decide) (.keep _ .nil)))
+
+/-! ### the suffix loop -/
+open JrsVerif.Suffix JrsVerif.Spec in
+/-- C06.7  For EVERY operand and EVERY chain of suffixes, the accumulate-and-flush loop of
+    `expr_suffix` (pending `.field`/`[expr]` parts, flushed before a slice, a call, an object
+    extension and at the end) builds exactly the postfix-chain tree: each maximal run of index
+    suffixes is one index node over everything to its left, and slice / call / extension apply to
+    everything to their left — in particular `a.b[:2]` is `(a.b)[:2]`, never `(a[:2]).b`. -/
+theorem suffix_flush_spec (e : Tree) (items : List Item) : exprSuffix e items = applyChain e items := by
+  have := suffixLoop_eq items e []
+  simpa [exprSuffix] using this
+
+open JrsVerif.Suffix JrsVerif.Spec in
+example : exprSuffix (.base "a") [.part "\"b\"", .slice "_ 2 _"] = .slice (.index (.base "a") ["\"b\""]) "_ 2 _" := by
+  simp [exprSuffix, suffixLoop, flush]
 
 end JrsVerif.C06
